@@ -206,14 +206,27 @@ def replay(crate, config, harness, timeout=900, extra=()):
         code, out = C.run(cmd, cwd=d, timeout=timeout)
     except Exception as e:
         return False, "", "playback generation failed: %s" % e
-    # find generated tests
+    # find generated tests; Kani writes one per failing check and may write the same one twice: de-duplicate by name
     tests = []
     src = ""
+    block = re.compile(r"(?:#\[test\]\s*\n)?\s*fn (kani_concrete_playback_\w+)\(\)\s*\{.*?\n\}\n", re.S)
     for root, _d, files in os.walk(os.path.join(d, "src")):
         for f in files:
             if f.endswith(".rs"):
-                txt = open(os.path.join(root, f)).read()
-                for m in re.finditer(r"fn (kani_concrete_playback_\w+)\(\)\s*\{.*?\n\}", txt, re.S):
+                path = os.path.join(root, f)
+                txt = open(path).read()
+                seen = set()
+
+                def keep(m):
+                    if m.group(1) in seen:
+                        return ""
+                    seen.add(m.group(1))
+                    return m.group(0)
+
+                new_txt = block.sub(keep, txt)
+                if new_txt != txt:
+                    open(path, "w").write(new_txt)
+                for m in block.finditer(new_txt):
                     if harness.split("::")[-1] in m.group(1):
                         tests.append(m.group(1))
                         src += m.group(0) + "\n"
@@ -221,8 +234,8 @@ def replay(crate, config, harness, timeout=900, extra=()):
         return False, "", out[-1500:]
     reproduced = False
     log = ""
-    for extra in ([], ["--release"]):
-        cmd = ["cargo", "kani", "playback", "-Z", "concrete-playback"] + fa + extra + ["--"] + tests[:1]
+    for t in tests[:4]:
+        cmd = ["cargo", "kani", "playback", "-Z", "concrete-playback"] + fa + ["--", t]
         try:
             code, o = C.run(cmd, cwd=d, timeout=timeout)
         except Exception as e:
@@ -230,4 +243,5 @@ def replay(crate, config, harness, timeout=900, extra=()):
         log += o[-800:]
         if re.search(r"test result: FAILED|panicked at", o):
             reproduced = True
+            break
     return reproduced, src, log
